@@ -43,7 +43,7 @@ FLOORS = {"quick": {"nesting_depths_swept": 4000, "evaluations": 10000, "raw_lin
                        "structure_aware": 150000, "live_lines": 1200, "answered": 300000,
                        "hostile_leaves": 150}}
 
-STEP_BUDGET = 3_000_000
+STEP_BUDGET = 40_000_000
 
 
 class StepBudgetExceeded(BaseException):
